@@ -26,7 +26,7 @@ type zzFS struct {
 	open      map[*os.File]*zzInode
 	off       map[*os.File]int64 // write position of every open handle (no O_APPEND)
 	clobbered bool               // a write landed before the end of existing content
-	rotated   []*zzInode // in rename order
+	rotated   []*zzInode         // in rename order
 	overwrote bool
 	failOpen  bool
 }
